@@ -27,6 +27,7 @@ def main():
     ap.add_argument('--only', default='')
     ap.add_argument('--checks', default='')
     ap.add_argument('--tier', default='quick')
+    ap.add_argument('--own', action='store_true', help="only the check of the property each seed breaks")
     a = ap.parse_args()
     seeds = sorted(d for d in os.listdir(os.path.join(HERE, 'seeded')) if os.path.isdir(os.path.join(HERE, 'seeded', d)))
     if a.only:
@@ -34,8 +35,11 @@ def main():
     checks = a.checks.split(',') if a.checks else ALL
     path = os.path.join(HERE, 'seeded', 'MATRIX.json')
     matrix = json.load(open(path)) if os.path.exists(path) else {}
+    def own_of(seed):
+        return json.load(open(os.path.join(HERE, 'seeded', seed, 'meta.json')))['property']
+
     with cf.ThreadPoolExecutor(a.jobs) as ex:
-        for seed, res in ex.map(lambda s: one(s, checks, a.tier), seeds):
+        for seed, res in ex.map(lambda s: one(s, [own_of(s)] if a.own else checks, a.tier), seeds):
             prev = matrix.get(seed, {})
             if 'error' in res:
                 print(seed, 'ERROR', res['error'])
@@ -46,9 +50,10 @@ def main():
             caught = [c for c, v in prev.items() if v['verdict'] == 'VIOLATION']
             incon = [c for c, v in prev.items() if v['verdict'] == 'inconclusive']
             print(f"{seed} (breaks {own}): caught by {caught or 'NONE'}" + (f' inconclusive: {incon}' if incon else '')
-                  + ('' if own in caught else f'   <-- own check {own} did not fire'))
-    with open(path, 'w') as f:
-        json.dump(matrix, f, indent=1, sort_keys=True)
+                  + ('' if own in caught else f'   <-- own check {own} did not fire'), flush=True)
+            with open(path + '.tmp', 'w') as f:          # incremental: an interrupted run keeps what it has
+                json.dump(matrix, f, indent=1, sort_keys=True)
+            os.replace(path + '.tmp', path)
 
 
 if __name__ == '__main__':
